@@ -827,6 +827,9 @@ impl Visitor<Diagnostic> for LibraryRenderer {
         for var in node.variables.iter() {
             self.visit_var_decl(var)?;
         }
+        for var in node.edge_variables.iter() {
+            self.visit_edge_var_decl(var)?;
+        }
         self.outdent();
 
         self.indent();
